@@ -47,6 +47,22 @@ impl KeyRing {
             let addr = ByronAddress::icarus_from_key(&xprv.to_public(), magic);
             byron.push(ByronEnt { xprv, addr });
         }
+        // Daedalus-style addresses of the same kind of key: an encrypted derivation path among the
+        // attributes makes address and bootstrap witness ~34 bytes longer (built with the independent writer)
+        for i in 4..6u32 {
+            use vkit::cbor as vc;
+            let xprv = root.derive(0x8000_0000 + 44).derive(0x8000_0000 + 1815).derive(0x8000_0000).derive(0).derive(i);
+            let root28 = xprv.to_public().to_raw_key().hash().to_bytes();
+            let payload = vc::to_vec(&vc::Item::bytes(&[0x5a + i as u8; 28]));
+            let mut entries = vec![(vc::Item::u(1), vc::Item::bytes(&payload))];
+            if i == 5 {
+                entries.push((vc::Item::u(2), vc::Item::bytes(&vc::to_vec(&vc::Item::u(1097911063)))));
+            }
+            let inner = vc::to_vec(&vc::Item::arr(vec![vc::Item::bytes(&root28), vc::Item::map(entries), vc::Item::u(0)]));
+            let outer = vc::to_vec(&vc::Item::arr(vec![vc::Item::tag(24, vc::Item::bytes(&inner)), vc::Item::u(vkit::codec::crc32(&inner) as u64)]));
+            let addr = ByronAddress::from_bytes(outer).expect("hand-built Byron address");
+            byron.push(ByronEnt { xprv, addr });
+        }
         let kh = |i: usize| keys[i].hash.clone();
         let pubkey = |i: usize| NativeScript::new_script_pubkey(&ScriptPubkey::new(&kh(i)));
         let list = |xs: Vec<NativeScript>| {
